@@ -7421,3 +7421,140 @@ func ruleCastNumbers(w *World, r *Report) {
 	}
 	r.ok("CAST-NUMBERS", key, w.Pos(fn.Pos()), "Go integers are converted to float64")
 }
+
+// ---- round 6 ---------------------------------------------------------------------------------------------------
+
+func lookupOfKey(key string) func(ssa.Value) bool {
+	return func(v ssa.Value) bool {
+		lk, ok := v.(*ssa.Lookup)
+		if !ok {
+			return false
+		}
+		k, ok := constKey(lk.Index)
+		return ok && k == key
+	}
+}
+
+var goNumericTypes = map[string]bool{"int": true, "int8": true, "int16": true, "int32": true, "int64": true, "uint": true, "uint8": true, "uint16": true, "uint32": true, "uint64": true, "float32": true, "float64": true}
+
+// EXP-TYPES-AGREE (C07): the two encodings of an expiry accept the same numbers, and what is stored can be read.
+func ruleExpTypesAgree(w *World, r *Report) {
+	r.Rule("EXP-TYPES-AGREE", "core.setExpires decides with two type switches what a `ttl` and what an `expires` may be.  (1) Every Go number type accepted as a ttl is accepted as an expires: otherwise Map{\"ttl\": 100} is a lease and Map{\"expires\": int(...)} from the same caller is refused.  (2) Every type accepted as an expires that getExpiration (which judges the stored fact on every read) does not read is rewritten on its branch (fact[\"expires\"] = canonical seconds): otherwise the write is acknowledged and every later read of the fact fails with `bad 'expires'`", 2)
+	set := w.Func("core", "setExpires")
+	get := w.Func("core", "getExpiration")
+	key := "fn=" + fname(set)
+	ttlT := assertedTypes(set, lookupOfKey("ttl"))
+	expT := assertedTypes(set, lookupOfKey("expires"))
+	getT := assertedTypes(get, lookupOfKey("expires"))
+	if len(ttlT) == 0 || len(expT) == 0 || len(getT) == 0 {
+		r.exempt("EXP-TYPES-AGREE", key, w.Pos(set.Pos()), "no type switch over the ttl / expires entry found: shape not recognised, not decided")
+		return
+	}
+	var missing []string
+	for t := range ttlT {
+		if goNumericTypes[t] && !expT[t] {
+			missing = append(missing, t)
+		}
+	}
+	sort.Strings(missing)
+	if len(missing) > 0 {
+		r.violation("EXP-TYPES-AGREE", key+" numbers", w.Pos(set.Pos()), "accepted as a ttl but refused as an expires: "+strings.Join(missing, ", "))
+	} else {
+		r.ok("EXP-TYPES-AGREE", key+" numbers", w.Pos(set.Pos()), "every number type accepted as a ttl is accepted as an expires")
+	}
+	// (2) per accepted type that the reader does not know: the branch rewrites the entry
+	isExpUpdate := func(in ssa.Instruction) bool {
+		mu, ok := in.(*ssa.MapUpdate)
+		if !ok {
+			return false
+		}
+		k, ok := constKey(mu.Key)
+		return ok && k == "expires"
+	}
+	var unread []string
+	allInstrs(set, func(in ssa.Instruction) {
+		ta, ok := in.(*ssa.TypeAssert)
+		if !ok || !ta.CommaOk || !dependsOn(ta.X, lookupOfKey("expires")) {
+			return
+		}
+		t := types.TypeString(ta.AssertedType, nil)
+		if getT[t] {
+			return
+		}
+		for _, ref := range *ta.Referrers() {
+			ex, ok := ref.(*ssa.Extract)
+			if !ok || ex.Index != 1 {
+				continue
+			}
+			for _, ref2 := range *ex.Referrers() {
+				ifi, ok := ref2.(*ssa.If)
+				if !ok {
+					continue
+				}
+				tb := ifi.Block().Succs[0]
+				if len(tb.Instrs) == 0 {
+					continue
+				}
+				isOK := func(x ssa.Instruction) bool { _, isRet := x.(*ssa.Return); return isRet && isSuccessReturnPS(x) }
+				if isExpUpdate(tb.Instrs[0]) {
+					continue
+				}
+				if h, _ := reach(set, tb.Instrs[0], isOK, isExpUpdate, nil); h != nil {
+					unread = append(unread, t)
+				}
+			}
+		}
+	})
+	sort.Strings(unread)
+	if len(unread) > 0 {
+		r.violation("EXP-TYPES-AGREE", key+" readable", w.Pos(set.Pos()), "accepted as an expires and stored as it is, but getExpiration cannot read it: "+strings.Join(unread, ", "))
+	} else {
+		r.ok("EXP-TYPES-AGREE", key+" readable", w.Pos(set.Pos()), "every accepted encoding is one getExpiration reads, or is rewritten to one")
+	}
+}
+
+// PREP-LOAD-TOLERANT (C13, C08): what is stored already is loaded as it is.
+func rulePrepLoadTolerant(prop string) ruleFn {
+	return func(w *World, r *Report) {
+		r.Rule("PREP-LOAD-TOLERANT", "core.PrepareFact validates what is written, and IndexedState.Load runs it again over every stored record.  A refusal that PrepareFact makes up itself (an error created with fmt.Errorf / errors.New in PrepareFact: an id that starts with `?` or `!`, ...) is a rule about new writes; applied at load, one stored record that predates the rule makes the whole location unloadable — every request answers with that error.  Therefore every return of such an error is control-dependent on the `loading` flag of the location", 1)
+		prep := w.Func("core", "PrepareFact")
+		key := "fn=" + fname(prep)
+		isLoading := func(v ssa.Value) bool {
+			_, f, _, ok := loadedField(v)
+			return ok && f == "loading"
+		}
+		isOwnErr := func(v ssa.Value) bool {
+			c, ok := v.(*ssa.Call)
+			if !ok {
+				return false
+			}
+			f := c.Common().StaticCallee()
+			if f == nil || f.Pkg == nil {
+				return false
+			}
+			p := f.Pkg.Pkg.Path()
+			return (p == "fmt" && f.Name() == "Errorf") || (p == "errors" && f.Name() == "New")
+		}
+		n := 0
+		var bad ssa.Instruction
+		// the error result is a named result: the refusals are the calls themselves (stored into the result slot)
+		allInstrs(prep, func(in ssa.Instruction) {
+			c, ok := in.(*ssa.Call)
+			if !ok || !isOwnErr(c) {
+				return
+			}
+			n++
+			if !controlDependsOnClassic(prep, in, isLoading, nil) && bad == nil {
+				bad = in
+			}
+		})
+		switch {
+		case n == 0:
+			r.ok("PREP-LOAD-TOLERANT", key, w.Pos(prep.Pos()), "PrepareFact makes up no refusal of its own")
+		case bad != nil:
+			r.violation("PREP-LOAD-TOLERANT", key, w.PosOf(bad), "this refusal also applies while the location is being loaded: one stored record that predates it makes the location unloadable")
+		default:
+			r.ok("PREP-LOAD-TOLERANT", key, w.Pos(prep.Pos()), itoa(n)+" refusals of PrepareFact's own, none applied at load")
+		}
+	}
+}
